@@ -410,8 +410,27 @@ def standard_replay(modname, pid, module, cfg, path, frozen, signature_of=None):
   mod = importlib.import_module(modname)
   work = os.path.join(OUT, '.work', pid + '_replay')
   shutil.rmtree(work, ignore_errors=True)
+  rcp = body.get('recipe', {})
+  regen = None
+  if rcp.get('suite_life') or rcp.get('suite'):
+    # behaviours recorded from the repository's own tests: re-run those tests on the current tree
+    import suite
+    if rcp.get('suite_life'):
+      module, cfg = suite.LIFE_SPEC
+      regen = suite.regen_life
+    else:
+      regen = lambda r: suite.regen(r, suite.ALL_KINDS)
   if frozen:
     tr = body['trace']
+  elif regen is not None:
+    try:
+      tr, err = regen(rcp), None
+    except Exception:
+      import traceback
+      tr, err = None, traceback.format_exc()
+    if err:
+      print('MACHINERY-FAILURE: cannot regenerate trace\n' + err)
+      return 2
   else:
     _, tr, err = _gen_one((modname, body['recipe']))
     if err:
@@ -419,6 +438,9 @@ def standard_replay(modname, pid, module, cfg, path, frozen, signature_of=None):
       return 2
   tr = dict(tr)
   tr['tid'] = 1
+  if not tr.get('events'):
+    print('replay of %s: the recorded behaviour does not occur on the current tree (no events regenerated)' % path)
+    return 0
   verdicts, _ = validate_traces(module, cfg, [tr], work, shards=1)
   fails = sorted({c.partition('@')[0] for c in verdicts[1][0] if c.startswith(pid + '.') or c.startswith('TRACE.')})
   shutil.rmtree(work, ignore_errors=True)
